@@ -19,6 +19,38 @@ _MC = ("TLC explores the bounded %s specification exhaustively (design check of 
        "real bio-rd objects with the complete projected state compared after each step")
 
 CHECKS = {
+    "C05": {
+        "text": _MC % "RibIn" + " (invariants MirrorsAdjRIBIn: every registered consumer holds exactly the contribution of the stored, "
+                "eligible announcements under the current import policy, an unregistered one nothing; OnePerKey). Real objects: "
+                "adjRIBIn.New + VRF + locRIB.LocRIB + a second recording consumer; the Loc-RIB dump is compared by full attribute projection.",
+        "note": "Trusted: TLC, Policy!Eval (bound separately by C14), the attribute projection (type, LOCAL_PREF, MED, next hop, AS_PATH, "
+                "ORIGINATOR_ID, CLUSTER_LIST, OTC, path id). 2 prefixes, <=4 bundles, <=7 policies per run.",
+        "technique": "TLA+ spec RibIn + TLC exhaustive check; behaviour replay against adjRIBIn/locRIB",
+    },
+    "C06": {
+        "text": _MC % "RibIn" + " (invariant NoIneligible) with bundles for every ineligibility reason (AS loop, own ORIGINATOR_ID, own "
+                "cluster id, empty eBGP AS_PATH, RFC 9234 ingress rules for all 5 remote roles), policy flips reject<->accept and late "
+                "registration of the Loc-RIB and of a second consumer.",
+        "note": "Trusted: as C05. The local ASN / cluster id are registered in the VRF by the adapter exactly as fsmAddressFamily.init does.",
+        "technique": "TLA+ spec RibIn + TLC exhaustive check; behaviour replay against adjRIBIn/locRIB",
+    },
+    "C12": {
+        "text": _MC % "RibIn" + " over 10 import policies so that every ordered (old, new) pair is replaced with routes present, and "
+                "repeated replacements; the invariant is stated against the current policy, i.e. equality with a fresh start under the "
+                "new policy after every ReplacePolicy. Export side and the server-level skip rule are added by RibOut / the session specs "
+                "as they are built.",
+        "note": "Trusted: as C05; Chain.Equal's soundness (never equal when outcomes differ) is bound by C14.",
+        "technique": "TLA+ spec RibIn (+RibOut) + TLC exhaustive check; behaviour replay against adjRIBIn/adjRIBOut",
+    },
+    "C14": {
+        "text": "Policy is a reference interpreter written from the documented semantics; PolicyCases enumerates all 1-filter/1-term "
+                "programs and samples larger ones, TLC evaluates each on all prefixes of the 3-bit universe x 3 paths and checks "
+                "interpreter laws; the real Chain.Process must give the same verdict and rewritten path (IPv4 and IPv6 embeddings), must "
+                "not modify its input path, and Chain.Equal must be false for every single-leaf mutation that changes some outcome.",
+        "note": "Trusted: TLC and the interpreter as the meaning of the documented semantics. Community / large-community conditions have no "
+                "public constructor and are not generated; prefix lists are exact-match.",
+        "technique": "TLA+ spec Policy/PolicyCases enumerated by TLC; per-program replay against routingtable/filter",
+    },
     "C01": {
         "text": _MC % "PrefixMap" + ". The lookups (Get, LPM, GetLonger, Dump, count) are defined on the abstract table exactly as the "
                 "property reads and TLC checks their mutual laws on every reachable table; behaviours = every insertion order of up to "
